@@ -36,6 +36,8 @@ type World struct {
 	Downs    []*Down
 	Phase    string
 	Log      []string
+	// WrapDialer, when set, wraps the broker's dialer (e.g. in the reconnectable transport layer)
+	WrapDialer func(transport.Dialer) transport.Dialer
 }
 
 // Up wraps an upstream with its recorders.
@@ -64,7 +66,12 @@ func (w *World) Logf(f string, a ...any) {
 // Connect creates the broker and connects the client. Extra options are appended.
 func (w *World) Connect(script *sim.Script, opts ...iscp.ConnOption) error {
 	w.B = sim.NewBroker(script)
-	iscp.VerifRegisterDialer("sim", func() transport.Dialer { return w.B.Dialer() })
+	iscp.VerifRegisterDialer("sim", func() transport.Dialer {
+		if w.WrapDialer != nil {
+			return w.WrapDialer(w.B.Dialer())
+		}
+		return w.B.Dialer()
+	})
 	iscp.VerifDeterministicIDs()
 	all := []iscp.ConnOption{
 		iscp.WithConnPingInterval(time.Second), iscp.WithConnPingTimeout(time.Second),
